@@ -17,7 +17,8 @@ RULE = ("(1) /proc/stat records printed by the spec's kernel printer (read throu
         "threading.Thread object is kept, dropped before the successor starts, dropped (+gc.collect()) between two calls of the successor, or never; thread B "
         "starts after A (and is handed A's ident) or before A exits; optional third thread and main-thread calls; B's first samples in other series / by "
         "blocking calls or in A's own series (where the ident-keyed code before d2712e2 inherited A's sample); (3) scripts of Process.cpu_percent calls on two "
-        "Process objects of one pid with scripted monotonic clock, cpu_count() and all five counters of the process tuple: utime/stime and, "
+        "Process objects of one pid with scripted monotonic clock, cpu_count() and all five counters of the process tuple (also inside and across oneshot() blocks, nested blocks, as_dict(attrs) and "
+        "process_iter(attrs=...), with /proc/<pid>/stat standing still or moving while a block is open, always ending with a plain call after the block): utime/stime and, "
         "independently, cutime/cstime/delayacct_blkio_ticks (mixed, moving alone, or standing still). Non-trivial = at least one counter "
         "or one call; distinct = distinct canonical case hash.")
 TRUSTED = ["correspondence harness props/C07.py + pv/ (every case starts from a real re-import of psutil -- importlib.reload of the platform "
@@ -1147,7 +1148,7 @@ def _run_pblock(case, coq, env, time):
 
 
 MANIFEST = {
-    "text": "Theorems (Coq, 29, all closed under the global context): (parse) for every /proc/stat the kernel can print (any number of CPUs, >= 7 "
+    "text": "Theorems (Coq, 33, all closed under the global context): (parse) for every /proc/stat the kernel can print (any number of CPUs, >= 7 "
             "decimal counters per line) the model of cpu_times()/cpu_times(percpu=True) returns every named counter / CLOCK_TICKS per CPU in kernel "
             "order; (arithmetic) cpu_percent between two samples = 100*busy/total over clipped deltas (busy = user+nice+system+irq+softirq+steal, "
             "guest not double counted, idle/iowait not busy), in [0,100], a counter that went backwards contributes zero; cpu_times_percent values "
@@ -1163,7 +1164,11 @@ MANIFEST = {
             "and CPU set; for cpu_times_percent no pair with 0 < elapsed < 1 s = the known finding); frame theorems (other threads' calls change "
             "nothing for a thread); Process.cpu_percent = 100*delta(user+system)/CLK/delta(wall) since the object's previous call for every "
             "sequence of calls on any objects with any cpu_count() answers and arbitrary children_user/children_system/iowait (which do not count), "
-            "0 on the first call, ValueError for negative intervals. The model is tied to the code by running the real psutil over fake /proc/stat "
+            "0 on the first call, ValueError for negative intervals; inside oneshot()/as_dict()/process_iter(attrs) blocks "
+            "(nested too) the cached /proc/<pid>/stat record is never modified by a reader (C07_stat_cache_never_modified_by_reader), every "
+            "cpu_times()/cpu_percent() value is the demanded one -- counters of the block's first read divided by CLOCK_TICKS once -- and the stored sample "
+            "is the true one (C07_block_values_exact), and blocks are transparent when the file stands still while they are open "
+            "(C07_oneshot_block_transparent). The model is tied to the code by running the real psutil over fake /proc/stat "
             "files (including a real re-import of psutil over a redirected /proc/stat), a scripted clock and real threads on generated cases.",
     "note": "Trusted: Coq kernel + vm_compute; hand-written model coq/C07/Model.v (tied by the correspondence run only); /proc/stat format in "
             "coq/C07/Spec.v; harness (fake files, importlib.reload under the path shim, public hooks only: os.sysconf, time.monotonic, "
